@@ -261,6 +261,32 @@ def to_int(v):
     return v
 
 
+CUR_S = [None]          # the statement being evaluated (None while a terminator is evaluated)
+
+
+def in_assert_condition():
+    """The comparison being evaluated computes (part of) the condition of the compiler-inserted assertion that ends the current
+    block — an overflow / divide-by-zero test —, as opposed to a comparison of the program that merely shares the block."""
+    f, b, s = CUR_F[0], CUR_B[0], CUR_S[0]
+    if f is None or b is None:
+        return False
+    term = f.blocks[b]["term"]
+    if term.get("k") != "assert":
+        return False
+    if s is None:
+        return True
+    from . import mir as _mir
+    need = {_mir.op_local(term["cond"])} if term.get("cond") else set()
+    for st in reversed(f.blocks[b]["stmts"]):
+        if st["k"] != "assign" or st["place"]["local"] not in need:
+            continue
+        if st is s:
+            return True
+        for pl in _mir.rv_places(st["rv"]):
+            need.add(pl["local"])
+    return False
+
+
 SYM_COMPARE = None      # client hook deciding a comparison of symbolic integers (op, a, b) -> bool
 
 
@@ -416,7 +442,9 @@ def _run_fragment(f, b, env, stops, oracle, max_blocks, on_block, stuck_ok, max_
         CUR_B[0] = b
         for s in blk["stmts"]:
             if s["k"] == "assign":
+                CUR_S[0] = s
                 val = rvalue(env, s["rv"])
+                CUR_S[0] = None
                 if on_store is not None and any(e["k"] == "deref" for e in s["place"]["proj"]):
                     # a store through a reference: tell the client which abstract object is written
                     on_store(env.get(s["place"]["local"], UNKNOWN), s["place"], val, b)
